@@ -73,3 +73,59 @@ Check (C13.C13_bb_write_gen_verdict : forall sweep zoom_part o sizes autosql inp
   (2 <= o_bs o -> 1 <= o_ips o -> forall outs sum ds zp, exists r, zoom_part outs sum ds zp = Ok r) ->
   verdict (BigBedWrite.bb_write_gen sweep zoom_part o sizes autosql input)
   = bb_file_rule o sizes autosql (bb_items input)).
+(* C13_parallel_text_file_verdict / C13_bb_parallel_text_file_verdict: names of C18's models qualified *)
+From BT Require Model.FileView Model.Chunker Model.Indexer Proofs.SliceStreamsAccept Proofs.AcceptSliced.
+Check (C13.C13_parallel_text_file_verdict : forall (cid : name -> N) fok fp o sizes (text : list N) (lim : nat)
+    (sz : nat -> nat -> N) (fuel : nat),
+  let key := SliceStreamsAccept.bed_key cid in
+  opts_ok o = true ->
+  text <> [] ->
+  (forall l, In l (Chunker.split_lines text) -> key l <> 0) ->
+  (forall l1 l2, In l1 (Chunker.split_lines text) -> In l2 (Chunker.split_lines text) ->
+     cid (SliceStreamsAccept.chrom_of l1) = cid (SliceStreamsAccept.chrom_of l2) ->
+     SliceStreamsAccept.chrom_of l1 = SliceStreamsAccept.chrom_of l2) ->
+  Indexer.grouped (Indexer.lfile key text) ->
+  Nlen text * Nlen text < 2 ^ N.of_nat lim -> Nlen text < 2 ^ 63 ->
+  (forall i k, 1 <= sz i k) -> (length text < fuel)%nat ->
+  exists ix streams,
+    Indexer.index_chroms (S lim) (Indexer.lfile key text) = Ok (Some ix) /\
+    Indexer.par_streams fuel text sz ix = map Ok streams /\
+    SliceStreamsAccept.tasks (SliceStreamsAccept.bw_parse fok) streams = line_runs (bw_lines fok text) /\
+    let P := parallel check_val (o_sort_all o) sizes
+               (SliceStreamsAccept.tasks (SliceStreamsAccept.bw_parse fok) streams) in
+    (forall items, all_ok (bw_lines fok text) = Some items ->
+       (P = Ok tt <-> verdict (bw_write fp o sizes items) = Ok tt) /\
+       (P = Ok tt <-> verdict (bw_write_multipass fp o sizes items) = Ok tt) /\
+       (forall k, verdict (bw_write fp o sizes items) = Err k -> exists k', P = Err k') /\
+       (forall k, verdict (bw_write_multipass fp o sizes items) = Err k -> exists k', P = Err k') /\
+       verdict (bw_write fp o sizes items) = rule_verdict bw_val_class (o_sort_all o) sizes items) /\
+    (forall k, bw_text_serial fok o sizes text = Err k -> exists k', P = Err k') /\
+    (all_ok (bw_lines fok text) = None -> exists k', P = Err k') /\
+    (P = Ok tt \/ exists k, P = Err k)).
+Check (C13.C13_bb_parallel_text_file_verdict : forall (cid : name -> N) fp o sizes autosql (text : list N) (lim : nat)
+    (sz : nat -> nat -> N) (fuel : nat),
+  let key := SliceStreamsAccept.bed_key cid in
+  text <> [] ->
+  (forall l, In l (Chunker.split_lines text) -> key l <> 0) ->
+  (forall l1 l2, In l1 (Chunker.split_lines text) -> In l2 (Chunker.split_lines text) ->
+     cid (SliceStreamsAccept.chrom_of l1) = cid (SliceStreamsAccept.chrom_of l2) ->
+     SliceStreamsAccept.chrom_of l1 = SliceStreamsAccept.chrom_of l2) ->
+  Indexer.grouped (Indexer.lfile key text) ->
+  Nlen text * Nlen text < 2 ^ N.of_nat lim -> Nlen text < 2 ^ 63 ->
+  (forall i k, 1 <= sz i k) -> (length text < fuel)%nat ->
+  exists ix streams,
+    Indexer.index_chroms (S lim) (Indexer.lfile key text) = Ok (Some ix) /\
+    Indexer.par_streams fuel text sz ix = map Ok streams /\
+    SliceStreamsAccept.tasks SliceStreamsAccept.bb_parse streams = line_runs (bb_lines text) /\
+    let P := AcceptSliced.bb_fed o autosql
+               (parallel bb_check_val (o_sort_all o) sizes
+                  (SliceStreamsAccept.tasks SliceStreamsAccept.bb_parse streams)) in
+    (forall input, all_ok (bb_lines text) = Some (bb_items input) ->
+       (P = Ok tt <-> verdict (BigBedWrite.bb_write fp o sizes autosql input) = Ok tt) /\
+       (P = Ok tt <-> verdict (BigBedWrite.bb_write_multipass fp o sizes autosql input) = Ok tt) /\
+       (forall k, verdict (BigBedWrite.bb_write fp o sizes autosql input) = Err k -> exists k', P = Err k') /\
+       (forall k, verdict (BigBedWrite.bb_write_multipass fp o sizes autosql input) = Err k -> exists k', P = Err k') /\
+       verdict (BigBedWrite.bb_write fp o sizes autosql input) = bb_file_rule o sizes autosql (bb_items input)) /\
+    (exists input, all_ok (bb_lines text) = Some (bb_items input)) /\
+    (forall k, AcceptSliced.bb_fed o autosql (bb_text_serial o sizes text) = Err k -> exists k', P = Err k') /\
+    (P = Ok tt \/ exists k, P = Err k)).
